@@ -2,7 +2,9 @@
    Statement-only file.  The kernel models perform only CHECKED accesses (a read outside [0,len) or a
    store beyond the capacity the wrapper allocated is a [Fault]); these theorems say no access faults,
    for ARBITRARY inputs (not assumed sorted), any mask, empty arrays, any search target / start. *)
-From SA Require Import Base.Prelude Kernels.Intersect Kernels.Linear Kernels.Intersect_Safe Kernels.Linear_Proofs.
+From Coq Require Import ZArith.
+From SA Require Import Base.Prelude Kernels.Intersect Kernels.Linear Kernels.Intersect_Safe Kernels.Linear_Proofs
+  Index.Index Index.Index_Spec Score.BM25 Score.BM25_Walk Score.Score View.View Score.BM25_Walk_Proofs.
 Open Scope N_scope.
 
 Theorem C14_intersect_drop : forall l r mask, ~ is_fault (intersect_drop l r mask).
@@ -68,3 +70,25 @@ Example C14_witnesses :
   galloping_search [13;31] 32 wmask 0 = Done (2, false) /\
   binary_search [] 3 wmask 0 = Done (0, false).
 Proof. repeat split; vm_compute; try reflexivity. exact (fun x => x). Qed.
+
+(* ---- the BM25 kernel (bm25.pyx): walks term_freqs AND doc_lens len(term_freqs) steps ---- *)
+(* safe exactly when doc_lens is long enough (or the overhanging term frequencies are all zero: doc_lens is read only
+   for a non-zero term frequency), and then equal to the value-level model used by C04 *)
+Theorem C14_bm25_walk : forall tfs dls avg idf k1 b, (length tfs <= length dls)%nat ->
+  bm25_score_walk tfs dls avg idf k1 b = Done (bm25_kernel tfs dls avg idf k1 b).
+Proof. exact bm25_walk_safe. Qed.
+Print Assumptions C14_bm25_walk.
+Theorem C14_bm25_walk_fault_iff : forall tfs dls avg idf k1 b,
+  is_fault (bm25_score_walk tfs dls avg idf k1 b) <-> existsb nonzero32 (skipn (length dls) tfs) = true.
+Proof. exact bm25_walk_fault_iff. Qed.
+(* the call sites: SearchArray.score on a fresh index and on any chain of selections hands the kernel vectors of equal length *)
+Theorem C14_bm25_call_site_index : forall ix ts tfs dfs dls total n avg idf k1 b,
+  score_args ix ts = AOk (tfs, dfs, dls, total, n) ->
+  ~ is_fault (bm25_score_walk (map f32_of_Z (map Z.of_N tfs)) (map f32_of_Z (map Z.of_N dls)) avg idf k1 b).
+Proof. exact score_args_walk_safe. Qed.
+Theorem C14_bm25_call_site_view : forall docs bs ix avoid keys v ts lo hi tfs dfs dls total n avg idf k1 b,
+  wf_docs docs -> index false bs docs = AOk ix -> select_chain (of_index ix avoid) keys = AOk v ->
+  v_score_args v ts lo hi = AOk (tfs, dfs, dls, total, n) ->
+  ~ is_fault (bm25_score_walk (map f32_of_Z (map Z.of_N tfs)) (map f32_of_Z (map Z.of_N dls)) avg idf k1 b).
+Proof. exact view_score_walk_safe. Qed.
+Print Assumptions C14_bm25_call_site_view.
